@@ -15,7 +15,7 @@ structure Inv (w : World) : Prop where
   mirror1 : ∀ a ar c, w.agents a = some ar → ar.cell = some c → ∃ cr, w.cells c = some cr ∧ a ∈ cr.agents
   /-- an agent listed by a cell points to it -/
   mirror2 : ∀ c cr a, w.cells c = some cr → a ∈ cr.agents → ∃ ar, w.agents a = some ar ∧ ar.cell = some c
-  capOk : ∀ c cr k, w.cells c = some cr → cr.cap = some k → k ≠ 0 → cr.agents.length ≤ k
+  capOk : ∀ c cr k, w.cells c = some cr → cr.cap = some k → cr.agents.length ≤ k
   /-- no cell belongs to two spaces -/
   disj : ∀ s s' sr sr' c, w.spaces s = some sr → w.spaces s' = some sr' → c ∈ sr.cells → c ∈ sr'.cells → s = s'
   /-- the cells of a space exist, are connected to cells of that space only, use its generator and (grids) its cell class -/
@@ -81,13 +81,13 @@ theorem Inv.unplaceRec (hi : Inv w) {a : Nat} {ar : AgentRec} (har : w.agents a 
         rw [ho] at hxc
         exact hne (Option.some.inj hxc).symm
       exact ⟨xr, (upd_ne _ _ hxa).trans hxr, hxc⟩
-  · intro c cr k h hk hk0
+  · intro c cr k h hk
     rcases upd_cases h with ⟨rfl, rfl⟩ | ⟨_, h⟩
-    · have := hi.capOk _ cr0 k hcr0 hk hk0
+    · have := hi.capOk _ cr0 k hcr0 hk
       have := List.length_erase_le (a := a) (l := cr0.agents)
       simp only
       omega
-    · exact hi.capOk _ _ _ h hk hk0
+    · exact hi.capOk _ _ _ h hk
   · exact hi.disj
   · intro s sr c hs hc
     obtain ⟨cr, hcr, hconn⟩ := hi.connIn s sr c hs hc
@@ -212,15 +212,13 @@ theorem Inv.place (hi : Inv w) {a c : Nat} {ar : AgentRec} {cr : CellRec} (har :
       · exact hold cr hcr hx
       · exact ⟨_, upd_same _ _ _, rfl⟩
     · exact hold cr' h hx
-  · intro c' cr' k h hk hk0
+  · intro c' cr' k h hk
     rcases upd_cases h with ⟨rfl, rfl⟩ | ⟨_, h⟩
     · simp only at hk
-      simp only [full, capFull, hk] at hroom
-      have hk0' : (k != 0) = true := by simpa using hk0
-      simp only [hk0', Bool.true_and, decide_eq_false_iff_not] at hroom
+      simp only [full, capFull, hk, decide_eq_false_iff_not] at hroom
       simp only [List.length_append, List.length_singleton]
       omega
-    · exact hi.capOk _ _ _ h hk hk0
+    · exact hi.capOk _ _ _ h hk
   · exact hi.disj
   · intro s sr c' hs hc
     obtain ⟨cr', hcr', hconn⟩ := hi.connIn s sr c' hs hc
@@ -444,10 +442,10 @@ theorem Inv.newSpace (hi : Inv w) (hw : WF w) (k : Nat) (cap : Option Nat) (grid
     rcases hcell c cr h with ⟨_, _, rfl⟩ | ⟨_, h⟩
     · simp at hx
     · exact hi.mirror2 c cr x h hx
-  · intro c cr k' h hk hk0
+  · intro c cr k' h hk
     rcases hcell c cr h with ⟨_, _, rfl⟩ | ⟨_, h⟩
     · simp
-    · exact hi.capOk _ _ _ h hk hk0
+    · exact hi.capOk _ _ _ h hk
   · intro s1 s2 sr1 sr2 c h1 h2 hc1 hc2
     rcases upd_cases h1 with ⟨rfl, rfl⟩ | ⟨hne1, h1⟩ <;> rcases upd_cases h2 with ⟨rfl, rfl⟩ | ⟨hne2, h2⟩
     · rfl
@@ -557,11 +555,11 @@ theorem Inv.copyWorld (hi : Inv w) (hw : WF w) {s : Nat} {sr : SpaceRec} (hsr : 
       have hreg : sr.reg.contains x0 = true := by simpa using hi.listed_reg hsr hc0 hcr0 hx0
       refine ⟨shiftAgent w.next xr0, by rw [copyWorld_agents_shift, hreg, if_pos rfl, hxr0]; rfl, ?_⟩
       simp [shiftAgent, hxc0]
-  · intro c cr k h hk hk0
+  · intro c cr k h hk
     rcases copyWorld_cells_cases s sr h with ⟨_, h⟩ | ⟨c0, cr0, rfl, _, hcr0, rfl⟩
-    · exact hi.capOk _ _ _ h hk hk0
+    · exact hi.capOk _ _ _ h hk
     · simp only [shiftCell, List.length_map] at hk ⊢
-      exact hi.capOk _ _ _ hcr0 hk hk0
+      exact hi.capOk _ _ _ hcr0 hk
   · intro s1 s2 sr1 sr2 c h1 h2 hc1 hc2
     rcases copyWorld_spaces_cases s sr h1 with ⟨_, h1⟩ | ⟨rfl, rfl⟩ <;>
       rcases copyWorld_spaces_cases s sr h2 with ⟨_, h2⟩ | ⟨rfl, rfl⟩
@@ -639,10 +637,8 @@ theorem capFull_mono {cap : Option Nat} {n m : Nat} (h : capFull cap m = false) 
   cases cap with
   | none => rfl
   | some k =>
-    simp only [Bool.and_eq_false_iff, bne_eq_false_iff_eq, decide_eq_false_iff_not] at h ⊢
-    rcases h with h | h
-    · exact Or.inl h
-    · exact Or.inr (by omega)
+    simp only [decide_eq_false_iff_not] at h ⊢
+    omega
 
 theorem Inv.setCell (hi : Inv w) (a c : Nat) : Inv (setCell w a c).1 := by
   unfold Mesa.CopyOcc.setCell
@@ -678,14 +674,11 @@ theorem Inv.setCell (hi : Inv w) (a c : Nat) : Inv (setCell w a c).1 := by
       cases hk : cr.cap with
       | none => rfl
       | some k =>
-        simp only [Bool.and_eq_false_iff, bne_eq_false_iff_eq, decide_eq_false_iff_not]
-        by_cases hk0 : k = 0
-        · exact Or.inl hk0
-        · right
-          have := hi.capOk c cr k hcr hk hk0
-          have := List.length_erase_of_mem ha0
-          have : 0 < cr.agents.length := List.length_pos_of_mem ha0
-          omega
+        simp only [decide_eq_false_iff_not]
+        have := hi.capOk c cr k hcr hk
+        have := List.length_erase_of_mem ha0
+        have : 0 < cr.agents.length := List.length_pos_of_mem ha0
+        omega
     · have hf : full cr = false := by
         have : (ar.cell != some c) = true := by simpa using hre
         simpa [this] using hfull
